@@ -331,7 +331,10 @@ def _tunnel(sock: socket.socket, host, port: int, auth) -> socket.socket:
     connect_header += "\r\n"
     dump("request header", connect_header)
 
-    send(sock, connect_header)
+    data = connect_header.encode("utf-8")
+    while data:
+        # the transport may accept only part of the request at a time
+        data = data[send(sock, data) :]
 
     try:
         status, _, _ = read_headers(sock)
